@@ -124,11 +124,12 @@ impl<T: Send + Clone> BoundedSyncSender<T> {
   /// synchronous and asynchronous code. The `Drop` implementation of the
   /// original `BoundedSyncSender` is not called.
   pub fn to_async(self) -> BoundedAsyncSender<T> {
+    let closed = self.closed.load(std::sync::atomic::Ordering::Relaxed);
     let shared = unsafe { std::ptr::read(&self.shared) };
     mem::forget(self);
     BoundedAsyncSender {
       shared,
-      closed: AtomicBool::new(false),
+      closed: AtomicBool::new(closed),
     }
   }
 }
@@ -140,11 +141,12 @@ impl<T: Send + Clone> BoundedAsyncSender<T> {
   /// synchronous and asynchronous code. The `Drop` implementation of the
   /// original `BoundedAsyncSender` is not called.
   pub fn to_sync(self) -> BoundedSyncSender<T> {
+    let closed = self.closed.load(std::sync::atomic::Ordering::Relaxed);
     let shared = unsafe { std::ptr::read(&self.shared) };
     mem::forget(self);
     BoundedSyncSender {
       shared,
-      closed: AtomicBool::new(false),
+      closed: AtomicBool::new(closed),
     }
   }
 }
@@ -155,13 +157,14 @@ impl<T: Send + Clone> BoundedSyncReceiver<T> {
   /// This is a zero-cost conversion. The original `BoundedSyncReceiver`'s `Drop`
   /// implementation is not called.
   pub fn to_async(self) -> BoundedAsyncReceiver<T> {
+    let closed = self.closed.load(std::sync::atomic::Ordering::Relaxed);
     let shared = unsafe { std::ptr::read(&self.shared) };
     let tail = unsafe { std::ptr::read(&self.tail) };
     mem::forget(self);
     BoundedAsyncReceiver {
       shared,
       tail,
-      closed: AtomicBool::new(false),
+      closed: AtomicBool::new(closed),
     }
   }
 }
@@ -172,13 +175,14 @@ impl<T: Send + Clone> BoundedAsyncReceiver<T> {
   /// This is a zero-cost conversion. The original `BoundedAsyncReceiver`'s `Drop`
   /// implementation is not called.
   pub fn to_sync(self) -> BoundedSyncReceiver<T> {
+    let closed = self.closed.load(std::sync::atomic::Ordering::Relaxed);
     let shared = unsafe { std::ptr::read(&self.shared) };
     let tail = unsafe { std::ptr::read(&self.tail) };
     mem::forget(self);
     BoundedSyncReceiver {
       shared,
       tail,
-      closed: AtomicBool::new(false),
+      closed: AtomicBool::new(closed),
     }
   }
 }
